@@ -67,13 +67,18 @@ static void build_ops(void) {
     ops[nops++].kind = OP_CLS;
 }
 
+/* snapshot: the fields of the context that outlive a message (everything else is reset per message / unit,
+ * which is what C09 checks); restored on top of a pristine copy of the context */
 typedef struct {
-    scpi_t ctx;
+    int16_t fwr, frd, fcount;
+    uint32_t hwr, hcount;
+    scpi_reg_val_t regs[SCPI_REG_COUNT];
     scpi_error_t ring[MAXCAP];
     char heap[MAXH];
     ment_t model[MAXCAP];
-    int mcount;
+    int8_t mcount;
 } snap_t;
+static scpi_t ctx0;
 
 typedef struct {
     int16_t fwr, frd, fcount;
@@ -99,14 +104,20 @@ static void st_save(unsigned char * keyb, unsigned char * snapb) {
     k->hwr = (uint32_t) ctx.error_info_heap.wr; k->hcount = (uint32_t) ctx.error_info_heap.count;
     memcpy(k->heap, heap, (size_t) H); memcpy(s->heap, heap, (size_t) H);
     memcpy(k->model, model, sizeof (ment_t) * (size_t) mcount); k->mcount = (int8_t) mcount;
-    s->ctx = ctx; memcpy(s->model, model, sizeof model); s->mcount = mcount;
+    s->fwr = ctx.error_queue.wr; s->frd = ctx.error_queue.rd; s->fcount = ctx.error_queue.count;
+    s->hwr = (uint32_t) ctx.error_info_heap.wr; s->hcount = (uint32_t) ctx.error_info_heap.count;
+    memcpy(s->regs, ctx.registers, sizeof s->regs);
+    memcpy(s->model, model, sizeof model); s->mcount = (int8_t) mcount;
 }
 
 static void st_load(const unsigned char * keyb, const unsigned char * snapb) {
     const snap_t * s = (const snap_t *) snapb;
     int i;
     (void) keyb;
-    ctx = s->ctx;
+    ctx = ctx0;
+    ctx.error_queue.wr = s->fwr; ctx.error_queue.rd = s->frd; ctx.error_queue.count = s->fcount;
+    ctx.error_info_heap.wr = s->hwr; ctx.error_info_heap.count = s->hcount;
+    memcpy(ctx.registers, s->regs, sizeof s->regs);
     for (i = 0; i < cap; i++) ering[i] = s->ring[i];
     memcpy(heap, s->heap, (size_t) H);
     memcpy(model, s->model, sizeof model); mcount = s->mcount;
@@ -167,7 +178,7 @@ static void check_query(void) {
 }
 
 static void check_empty_reusable(void) {
-    snap_t save;
+    scpi_t save_ctx; scpi_error_t save_ring[MAXCAP]; char save_heap[MAXH];
     char text[MAXH + 2];
     int i;
     if (mcount != 0 || SCPI_ErrorCount(&ctx) != 0) return;
@@ -177,7 +188,7 @@ static void check_empty_reusable(void) {
     }
     for (i = 0; i < H; i++) if (heap[i] != 0) { mcx_viol("c20/heap-not-clean-when-empty", "queue empty but heap byte %d = 0x%02x", i, (unsigned char) heap[i]); return; }
     if (H < 2) return;
-    save.ctx = ctx; for (i = 0; i < cap; i++) save.ring[i] = ering[i]; memcpy(save.heap, heap, (size_t) H);
+    save_ctx = ctx; for (i = 0; i < cap; i++) save_ring[i] = ering[i]; memcpy(save_heap, heap, (size_t) H);
     memset(text, 'P', (size_t) (H - 1)); text[H - 1] = 0;
     SCPI_ErrorPushEx(&ctx, -222, text, 0);
     outn = 0; outbuf[0] = 0;
@@ -185,9 +196,9 @@ static void check_empty_reusable(void) {
     {
         char exp[128];
         snprintf(exp, sizeof exp, "-222,\"%s;%s\"\r\n", SCPI_ErrorTranslate(-222), text);
-        if (strcmp(exp, outbuf)) mcx_viol("c20/heap-not-reusable-when-empty", "queue empty, heap of %d bytes (wr=%d count=%d): a text of %d characters came back as [%s]", H, (int) save.ctx.error_info_heap.wr, (int) save.ctx.error_info_heap.count, H - 1, mc_es(outbuf));
+        if (strcmp(exp, outbuf)) mcx_viol("c20/heap-not-reusable-when-empty", "queue empty, heap of %d bytes (wr=%d count=%d): a text of %d characters came back as [%s]", H, (int) save_ctx.error_info_heap.wr, (int) save_ctx.error_info_heap.count, H - 1, mc_es(outbuf));
     }
-    ctx = save.ctx; for (i = 0; i < cap; i++) ering[i] = save.ring[i]; memcpy(heap, save.heap, (size_t) H);
+    ctx = save_ctx; for (i = 0; i < cap; i++) ering[i] = save_ring[i]; memcpy(heap, save_heap, (size_t) H);
 }
 
 static int apply(int op) {
@@ -225,12 +236,13 @@ int main(int argc, char ** argv) {
         heap = (char *) mc_xalloc((size_t) H);                   /* exact size: any access outside the heap traps */
         SCPI_Init(&ctx, cmds, &itf, scpi_units_def, "a", "b", "c", "d", ibuf, sizeof ibuf, ering, (int16_t) cap);
         SCPI_InitHeap(&ctx, heap, (size_t) H);
+        ctx0 = ctx;
         mcount = 0; memset(model, 0, sizeof model);
         memset(&m, 0, sizeof m);
         m.key_size = sizeof (hkey_t); m.snap_size = sizeof (snap_t); m.nops = nops;
         m.load = st_load; m.save = st_save; m.apply = apply; m.opname = opname;
-        m.max_states = 8000000ULL;
-        m.max_depth = 0;
+        m.max_states = 40000000ULL;
+        m.max_depth = (cap >= 4 && H >= 8) ? 9 : 0;       /* the largest spaces: every history of <= 9 operations instead of the fix-point */
         mcx_run(&m);
         states += m.states; transitions += m.transitions; fix &= m.fixpoint; nrun++;
         if (m.depth_reached > maxdepth) maxdepth = m.depth_reached;
